@@ -86,6 +86,7 @@ def main():
     for mod, cfg, env in (("MC_Dash", "MC_Dash_pinned", {}), ("MC_CanvasImpl", "MC_CanvasImpl_pinned", {"D": 3}),
                           ("MC_CanvasImpl", "MC_CanvasImpl_cross", {"D": 3}),
                           ("MC_Dash", "MC_Dash_pinned4", {"TWO": 1, "MAXL": 3, "MAXSEG": 2, "OFFR": 2, "ARR3": 0}),
+                          ("MC_Dash", "MC_Dash_pinned5", {"TWO": 1, "MAXL": 3, "MAXSEG": 2, "OFFR": 2, "ARR3": 0}),
                           ("MC_Stroke", "MC_Stroke_pinned", {"LEN": 4}),
                           ("MC_Surface", "MC_Surface", {"FIXED": 0, "MAXSIZE": 1}),
                           ("MC_Cursor", "MC_Cursor", {"PINNED": 1, "N": 3}), ("MC_Cursor", "MC_Cursor", {"PINNED": 2, "N": 3}),
